@@ -1,5 +1,6 @@
 """dznpy-facing helpers: model description -> FileContents / Configuration -> build result."""
 import contextlib
+import copy
 import io
 import json
 
@@ -80,7 +81,8 @@ def mk_configuration(model, cfg, fct=None, ports_cfg=None):
 
 
 class VerboseChangesOutcome(Exception):
-    """The `verbose` flag of the configuration changed the outcome of a build (it may only add log output)."""
+    """The `verbose` flag of the configuration - or building from a deep copy of the parsed model instead of the parser's
+    own objects - changed the outcome of a build."""
 
 
 def _build_once(model, cfg, verbose, fct=None):
@@ -102,14 +104,17 @@ def build(model, cfg):
         fct = None
     for verbose in (False, True):
         try:
-            outcomes.append(('OK', _build_once(model, cfg, verbose, fct)))
+            # IDENTITY: the second build works on a deep copy of the parsed model (equal, but no object shared with the
+            # parser's result - as after copy.deepcopy / a pickle round trip / a hand-built AST)
+            use = copy.deepcopy(fct) if verbose and fct is not None else fct
+            outcomes.append(('OK', _build_once(model, cfg, verbose, use)))
         except Exception as exc:  # pylint: disable=broad-except
             outcomes.append(('EXC', exc))
     (k0, v0), (k1, v1) = outcomes
     if k0 != k1 or (k0 == 'OK' and v0 != v1) or (k0 == 'EXC' and type(v0) is not type(v1)):
         def show(kind, val):
             return 'files ' + str([f[0] for f in val]) if kind == 'OK' else f'{type(val).__name__}: {val}'
-        raise VerboseChangesOutcome(f'verbose=False -> {show(k0, v0)} ; verbose=True -> {show(k1, v1)}')
+        raise VerboseChangesOutcome(f'verbose=False on the parsed model -> {show(k0, v0)} ; verbose=True on a deep copy of it -> {show(k1, v1)}')
     if k0 == 'EXC':
         raise v0
     return v0
